@@ -24,7 +24,9 @@ pub struct Case {
     pub spec: SessionSpec,
     pub stateless: bool,
     /// 0 plain, 1 unneeded different remote key supplied on both sides, 2 tampered carrier first,
-    /// 3 = 1 + 2: a rejected carrier must not change what is reported
+    /// 3 = 1 + 2: a rejected carrier must not change what is reported,
+    /// 4 = the pre-shared remote key ends in zero bytes and is supplied WITHOUT them (the builder
+    /// zero-pads short keys): the report must still be the full key
     pub variant: u8,
 }
 
@@ -35,8 +37,23 @@ fn oracle(c: &Case, acc: &mut Acc) -> CaseResult {
     let dh = spec.suite.dh;
     let true_pub = |init: bool| spec.s_pub(init); // public key of `init`'s static key, via the reference DH
     let other_pub = rc::dh_pub(dh, &priv_from_seed(dh, spec.key_seed, 99)).unwrap();
+    if c.variant == 4 {
+        let any_applicable = [true, false].iter().any(|init| pat.role_needs_remote_static(*init) && true_pub(!*init).last() == Some(&0));
+        if !any_applicable {
+            acc.skip("variant 4 needs a pre-shared remote key that ends in a zero byte");
+            return Ok(());
+        }
+        acc.label("preshared_key_supplied_without_trailing_zeros");
+    }
     let mk = |init: bool| -> Result<snow::HandshakeState, Fail> {
         let mut ov = EpOverrides::default();
+        if c.variant == 4 && pat.role_needs_remote_static(init) {
+            let mut k = true_pub(!init);
+            while k.last() == Some(&0) {
+                k.pop();
+            }
+            ov.rs_value = Some(k);
+        }
         if (c.variant == 1 || c.variant == 3) && !pat.role_needs_remote_static(init) {
             ov.supply_rs = Some(true);
             ov.rs_value = Some(other_pub.clone());
@@ -150,7 +167,14 @@ fn oracle(c: &Case, acc: &mut Acc) -> CaseResult {
         let m = t_write(&mut ti, b"x", 32).map_err(|x| Fail::setup(e(&x)))?;
         t_read(&mut tr, &m, 32).map_err(|x| Fail::setup(e(&x)))?;
         ti.rekey_outgoing();
+        ti.rekey_manually(Some(&[7u8; 32]), Some(&[8u8; 32]));
+        tr.rekey_manually(Some(&[7u8; 32]), Some(&[8u8; 32]));
+        for _ in 0..40 {
+            let m = t_write(&mut ti, b"more", 32).map_err(|x| Fail::setup(e(&x)))?;
+            t_read(&mut tr, &m, 32).map_err(|x| Fail::setup(e(&x)))?;
+        }
         check(ti.get_remote_static(), true, nm, "after transport traffic", acc)?;
+        check(ti.get_remote_static(), true, nm, "on a second call", acc)?;
         check(tr.get_remote_static(), false, nm, "after transport traffic", acc)?;
     }
     acc.label(format!("dh:{}", dh.name()));
@@ -175,11 +199,19 @@ pub fn run(ctx: &Ctx) {
             for si in picks {
                 let spec = SessionSpec::simple(hs.clone(), *per_dh[si], mix(ctx.seed, (ni * 12 + si) as u64));
                 for stateless in [false, true] {
-                    for variant in 0..4u8 {
+                    for variant in 0..5u8 {
                         if ctx.tier == Tier::Quick && variant > 0 && !hs.psks.is_empty() && (ni + variant as usize) % 3 != 0 {
                             continue;
                         }
-                        cases.push(Case { spec: spec.clone(), stateless, variant });
+                        let mut sp = spec.clone();
+                        if variant == 4 {
+                            // key seeds with seed % 8 == 7 give public keys that end in a zero byte
+                            sp.key_seed = sp.key_seed | 7;
+                            if !sp.pattern().role_needs_remote_static(true) && !sp.pattern().role_needs_remote_static(false) {
+                                continue;
+                            }
+                        }
+                        cases.push(Case { spec: sp, stateless, variant });
                     }
                 }
             }
